@@ -7,7 +7,9 @@ import (
 	"hash/fnv"
 	"io"
 	"runtime/metrics"
+	"seehuhn.de/go/postscript/cid"
 	"seehuhn.de/go/postscript/funit"
+	"seehuhn.de/go/postscript/type1"
 	"sort"
 	"sync"
 	"time"
@@ -626,6 +628,25 @@ func c02Seeds(thorough bool) []*c02Seed {
 			comp.Data = d
 			enc := glyf.Glyphs{simple, comp}.Encode()
 			add(c02GlyfSeeds("composite with instructions last", enc.GlyfData, enc.LocaData, enc.LocaFormat)...)
+		}
+		// a CID-keyed CFF table whose FDSelect has long runs (written in the range format 3)
+		{
+			f := &cff.Font{FontInfo: &type1.FontInfo{FontName: "Runs", FontMatrix: matrix.Matrix{0.001, 0, 0, 0.001, 0, 0}},
+				Outlines: &cff.Outlines{ROS: &cid.SystemInfo{Registry: "Adobe", Ordering: "Identity"},
+					Private:      []*type1.PrivateDict{{BlueValues: []funit.Int16{-10, 0, 700, 710}, BlueScale: 0.039625, BlueShift: 7, BlueFuzz: 1}, {BlueValues: []funit.Int16{-12, 0, 650, 660}, BlueScale: 0.039625, BlueShift: 7, BlueFuzz: 1}},
+					FontMatrices: []matrix.Matrix{matrix.Identity, matrix.Identity},
+					FDSelect:     func(g glyph.ID) int { return int(g) / 12 % 2 }}}
+			for i := 0; i < 30; i++ {
+				g := cff.NewGlyph("", float64(500+i))
+				g.MoveTo(0, 0)
+				g.LineTo(float64(100+i), 50)
+				f.Glyphs = append(f.Glyphs, g)
+				f.GIDToCID = append(f.GIDToCID, cid.CID(i))
+			}
+			buf := &bytes.Buffer{}
+			if err := f.Write(buf); err == nil {
+				add(c02TableSeed("cff.Read", "CID-keyed, FDSelect with three ranges", buf.Bytes()))
+			}
 		}
 		add(c02TableSeed("kern.Read", "two subtables", c02KernTable()))
 		c02AllSeeds = seeds
